@@ -424,10 +424,16 @@ def h13_int_cast_of_selector(ctx, tk, rule, funcs):
         fa = ctx.fa(f)
         for n, c in find_calls(fa, lambda c: np_call(c, {"asarray", "asanyarray", "array"}) and c.a[1] and any(a.k == "param" for a in alts(c.a[1][0]))):
             dt = dict(c.a[2]).get("dtype", c.a[1][1] if len(c.a[1]) > 1 else None)
-            if dt is None or not (dt.k == "global" and dt.a[0] == "int" or (attr_chain(dt) or ("",))[-1] in ("int64", "int32", "intp", "int_")):
+            if dt is None or not (dt.k == "global" and dt.a[0] == "int" or (attr_chain(dt) or ("",))[-1] in ("int64", "int32", "intp", "int_", "_dtype")):
                 continue
             pname = [a.a[0] for a in alts(c.a[1][0]) if a.k == "param"][0]
-            if pname not in (f.params[1:2] + [p for p in f.params if p in ("idx", "index", "indices", "raw_idx", "_index", "keys")]):
+            selector_names = ("idx", "index", "indices", "raw_idx", "_index", "keys", "rows", "row_idx", "row_indices")
+            if (attr_chain(dt) or ("",))[-1] == "_dtype":
+                # geometry constructors convert their starts / lengths / codes to the index dtype on purpose: only parameters the
+                # repository itself names as selectors are meant
+                if pname not in selector_names:
+                    continue
+            elif pname not in (f.params[1:2] + [p for p in f.params if p in selector_names]):
                 continue
             empty = any(t.k == "cmp" and t.a[0] == "==" and is_const(t.a[2], 0) and truth and t.a[1].k == "call" and call_name(t.a[1]) == "len" for t, truth, _ in facts_at(fa, n))
             ctx.decide(rule, f, "a selector is converted to an array without forcing an integer dtype (a boolean list stays a mask)", True if empty else False,
@@ -627,12 +633,19 @@ def h18c_typed_by_the_first_operand(ctx, tk, rule, funcs):
         for x in ast.walk(f.node):
             if not isinstance(x, ast.Call):
                 continue
-            for kw in x.keywords:
-                v = kw.value
+            cands = [(kw.arg, kw.value) for kw in x.keywords]
+            if isinstance(x.func, ast.Attribute) and x.func.attr == "astype" and x.args:
+                cands.append(("dtype", x.args[0]))
+            for kwarg, v in cands:
+                kw = type("K", (), {"arg": kwarg})
                 if kw.arg == "dtype" and isinstance(v, ast.Attribute) and v.attr in ("dtype", "_dtype") and isinstance(v.value, ast.Subscript) \
                         and isinstance(v.value.value, ast.Name) and v.value.value.id in f.params and isinstance(v.value.slice, ast.Constant) and v.value.slice.value in (0, -1):
                     coll = v.value.value.id
                     uses_all = any(isinstance(y, ast.Name) and y.id == coll and not (isinstance(getattr(y, "_parent", None), ast.Subscript)) for a in x.args for y in ast.walk(a))
+                    if isinstance(x.func, ast.Attribute) and x.func.attr == "astype":
+                        # data.astype(rows[0].dtype): `data` holds all rows when some statement of the function builds it from the whole collection
+                        uses_all = any(isinstance(st, ast.Assign) and any(isinstance(y, ast.Name) and y.id == coll for y in ast.walk(st.value)) and
+                                       any(isinstance(tg, ast.Name) and isinstance(x.func.value, ast.Name) and tg.id == x.func.value.id for tg in st.targets) for st in ast.walk(f.node))
                     if uses_all:
                         ctx.violated(rule, f, "a result joining several operands has their common element type",
                                      "`%s` types the result by `%s` alone although it is built from all of `%s`" % (ast.unparse(x)[:120], ast.unparse(v), coll), node=x, engine="KB")
@@ -1019,6 +1032,18 @@ def h28_out_buffer_pins_dtype(ctx, tk, rule, funcs):
                     continue
                 # bitwise / extremum scans never widen: a buffer typed like their own operand is what numpy allocates anyway
                 uf = attr_chain(c.a[0]) or ()
+                if not uf and c.a[0].k == "attr" and c.a[0].a[1] in ("accumulate", "reduce", "reduceat"):
+                    # the ufunc is chosen by a conditional expression: every alternative has to be a non-widening one
+                    names = set()
+                    def _names(t):
+                        if t.k == "ifexp":
+                            _names(t.a[1]); _names(t.a[2])
+                        else:
+                            for a_ in alts(t):
+                                names.add((attr_chain(a_) or ("?",))[-1])
+                    _names(c.a[0].a[0])
+                    if names and names <= (NON_WIDENING_UFUNCS | {"logical_xor", "logical_or", "logical_and"}):
+                        uf = ("np", "bitwise_xor", c.a[0].a[1])
                 if len(uf) >= 2 and uf[-1] in ("accumulate", "reduce", "reduceat") and uf[-2] in NON_WIDENING_UFUNCS and c.a[1]:
                     def root(t):
                         for _ in range(8):
@@ -1235,6 +1260,43 @@ EXACT_DATA_MARKERS = {
     "empty_rows_removed": "set by HashTable lookups only (views of the integer key buckets) and by the index builder of such a view",
     "empty_removed": "the attribute behind empty_rows_removed()",
 }
+
+
+def accumulation_pairs_with_difference(ctx, tk, rule):
+    """np.diff takes arithmetic differences (xor for bool): the prefix operation that rebuilds the values is np.add.accumulate
+    (logical / bitwise xor for bool).  A helper choosing the accumulation by dtype must not answer xor for an integer kind"""
+    from .guards import reachable_under
+    tel = telescoping_functions(ctx, tk)
+    for q, (g, ps) in sorted(tel.items()):
+        ga = ctx.fa(g)
+        for n, c in find_calls(ga, lambda c: True):
+            callee = c.a[0]
+            for a in alts(callee):
+                if a.k != "call":
+                    continue
+                for h in tk.R.resolve_call(a, ga) or ():
+                    ha = ctx.fa(h)
+                    subj = lambda t: t.k == "param" or (t.k == "attr" and t.a[1] == "dtype")
+                    for kind in ("signed", "unsigned", "floating"):
+                        reach = reachable_under(ha, kind, subj)
+                        for r in ha.cfg.returns():
+                            if r.id not in reach or r.ast.value is None:
+                                continue
+                            for ra in alts(ha.term(r.ast.value, r)):
+                                ch = attr_chain(ra)
+                                if ch and ch[-1] == "accumulate" and len(ch) >= 2:
+                                    # an alternative of a conditional expression is judged by its own condition
+                                    if ra is not ha.term(r.ast.value, r) and ha.term(r.ast.value, r).k == "ifexp":
+                                        from .guards import dtype_truth
+                                        tm = ha.term(r.ast.value, r)
+                                        tr = dtype_truth(tm.a[0], subj)
+                                        if tr is not None:
+                                            taken = tm.a[1] if kind in tr else tm.a[2]
+                                            if ra is not taken and str(ra) != str(taken):
+                                                continue
+                                    ctx.decide(rule, h, "differences taken with np.diff are summed back with np.add.accumulate for %s values" % kind, ch[-2] == "add",
+                                               "`%s` answers np.%s.accumulate for %s values, but `%s` fills the buffer with arithmetic differences (np.diff): "
+                                               "xor of differences does not give the values back" % (h.name, ch[-2], kind, g.name), node=r.ast, key="pair:%s" % kind, engine="KB")
 
 
 def h37_telescoping_needs_exact_arithmetic(ctx, tk, rule, funcs):
@@ -1737,6 +1799,181 @@ def h55_scalar_test_misses_numpy_bool(ctx, tk, rule, funcs):
                    node=tests[0][0], key="numpy-bool-scalar", engine="KB")
 
 
+def h56_unpackbits_without_count(ctx, tk, rule, funcs):
+    """np.packbits pads the last byte with zero bits; np.unpackbits without count= hands all of them back, so the array read back is
+    up to 7 elements longer than the one written"""
+    for f in funcs:
+        for x in ast.walk(f.node):
+            if isinstance(x, ast.Call) and isinstance(x.func, ast.Attribute) and x.func.attr == "unpackbits" and not any(k.arg == "count" for k in x.keywords):
+                sliced = False
+                for y in ast.walk(f.node):
+                    if isinstance(y, ast.Subscript) and any(z is x for z in ast.walk(y.value)) and isinstance(y.slice, ast.Slice) and y.slice.upper is not None:
+                        sliced = True
+                ctx.decide(rule, f, "unpacked bits are cut back to the number of elements that were packed", True if sliced else False,
+                           "`%s` returns a multiple of 8 elements: the padding bits of the last byte come back as data" % ast.unparse(x), node=x, engine="KB")
+
+
+def h57_zero_test_is_not_a_sign_test(ctx, tk, rule, funcs):
+    """`not x.any()` / `np.all(x == 0)` is also true for -0.0: a shortcut that then returns fresh zeros loses the sign of zero
+    (1 / -0.0, copysign, arctan2 see the difference).  Fine for integer / bool data"""
+    from .guards import reachable_under
+    for f in funcs:
+        fa = ctx.fa(f)
+        for r in fa.cfg.returns():
+            if r.ast.value is None:
+                continue
+            tm = fa.term(r.ast.value, r)
+            if not any(np_call(a, {"zeros", "zeros_like"}) for a in alts(tm)):
+                continue
+            hit = None
+            for t, truth, _ in facts_at(fa, r):
+                if not truth and t.k == "call" and t.a[0].k == "attr" and t.a[0].a[1] == "any" and not t.a[1]:
+                    hit = t
+                if not truth and np_call(t, {"any", "count_nonzero"}):
+                    hit = t
+            if hit is None:
+                continue
+            subj = lambda x: (x.k == "attr" and x.a[1] == "dtype") or x.k == "param"
+            floats = r.id in reachable_under(fa, "floating", subj)
+            ctx.decide(rule, f, "a column of zeros keeps the sign of its zeros", False if floats else True,
+                       "fresh zeros are returned when `%s` is false: that is also the case for -0.0 entries, whose sign matters to multiply, divide, copysign, arctan2" % (hit,),
+                       node=r.ast, engine="KB")
+
+
+def h58_nan_marker_promotes_integers(ctx, tk, rule, funcs):
+    """np.where(cond, values, np.nan) (or np.inf) is float64 whatever `values` were: 64-bit integers above 2**53 lose their low bits,
+    and later equality tests against the original data no longer match"""
+    from .guards import reachable_under
+    for f in funcs:
+        if not any(isinstance(x, ast.Attribute) and x.attr in ("nan", "inf", "NaN") for x in ast.walk(f.node)):
+            continue
+        fa = ctx.fa(f)
+        for n, c in find_calls(fa, lambda c: np_call(c, {"where"}) and len(c.a[1]) == 3):
+            ops = c.a[1][1:]
+            marker = [o for o in ops if (attr_chain(o) or ("",))[-1] in ("nan", "inf", "NaN")]
+            data = [o for o in ops if o not in marker and o.k != "const"]
+            if not marker or not data:
+                continue
+            subj = lambda x: (x.k == "attr" and x.a[1] == "dtype") or x.k == "param"
+            ints = any(n.id in reachable_under(fa, k, subj) for k in ("signed", "unsigned"))
+            ctx.decide(rule, f, "integer data is not mixed with a floating-point marker value", False if ints else True,
+                       "`%s` is float64 for integer data: values above 2**53 are rounded (2**60 + 1 and 2**60 + 2 become equal)" % (c,), node=c.node, engine="KB")
+
+
+def h59_data_stacked_with_positions(ctx, tk, rule, funcs):
+    """np.vstack / np.stack / np.column_stack / np.array((data, positions)) builds ONE array: data values and int64 positions
+    are promoted to a common type first - uint64 data become float64 (and lose their low bits), small ints become int64.
+    Keys of different meaning are kept in a tuple (np.lexsort takes one)"""
+    for f in funcs:
+        fa = None
+        for x in ast.walk(f.node):
+            if not (isinstance(x, ast.Call) and isinstance(x.func, ast.Attribute) and x.func.attr in ("vstack", "stack", "column_stack", "hstack", "array", "concatenate")
+                    and x.args and isinstance(x.args[0], (ast.Tuple, ast.List)) and len(x.args[0].elts) >= 2):
+                continue
+            def is_data(e):
+                return any((isinstance(y, ast.Call) and isinstance(y.func, ast.Attribute) and y.func.attr in ("ravel",) and isinstance(y.func.value, ast.Name) and f.params and y.func.value.id == f.params[0])
+                           or (isinstance(y, ast.Attribute) and y.attr in ("__data", "_values")) for y in ast.walk(e))
+            def is_pos(e):
+                return any((isinstance(y, ast.Call) and isinstance(y.func, ast.Attribute) and y.func.attr in ("index_array", "arange", "flatnonzero", "argsort"))
+                           or (isinstance(y, ast.Attribute) and y.attr in ("starts", "ends", "lengths", "_indices", "_events")) for y in ast.walk(e)) and not is_data(e)
+            els = x.args[0].elts
+            if any(is_data(e) for e in els) and any(is_pos(e) for e in els):
+                ctx.violated(rule, f, "data values and positions are not promoted into one array",
+                             "`%s` puts the data next to int64 positions in one array: uint64 data are promoted to float64 (values above 2**53 collide), so an ordering or "
+                             "comparison computed from it differs from numpy's on the data" % ast.unparse(x)[:110], node=x, engine="KB")
+
+
+def h60_bincount_without_minlength(ctx, tk, rule, funcs):
+    """np.bincount(x) has max(x) + 1 entries: an answer with one entry per key / row / column needs minlength=, otherwise the
+    trailing entries are missing whenever the last positions do not occur (and the result is empty when nothing occurs)"""
+    for f in funcs:
+        fa = None
+        for x in ast.walk(f.node):
+            if isinstance(x, ast.Call) and isinstance(x.func, ast.Attribute) and x.func.attr == "bincount" and not any(k.arg == "minlength" for k in x.keywords) and len(x.args) < 3:
+                # tolerated when the result is extended / indexed into a pre-sized buffer afterwards; reported when it is returned as the answer
+                returned = any(isinstance(r, ast.Return) and r.value is not None and any(y is x for y in ast.walk(r.value)) for r in ast.walk(f.node))
+                if returned:
+                    ctx.violated(rule, f, "a count per key / row has one entry for each of them (np.bincount with minlength)",
+                                 "`%s` is as long as the largest position that occurs plus one: the answer is shorter than the question whenever the last keys are absent" % ast.unparse(x)[:100],
+                                 node=x, engine="KB")
+
+
+def h61_shifted_window_in_chunk_loop(ctx, tk, rule, funcs):
+    """for s in range(0, n, B): x[s + 1 : s + B] covers B - 1 elements: a window that is shifted at its lower end by k has to be
+    shifted at its upper end as well, or the last k elements of every block are skipped"""
+    for f in funcs:
+        for loop in ast.walk(f.node):
+            if not (isinstance(loop, ast.For) and isinstance(loop.target, ast.Name) and isinstance(loop.iter, ast.Call) and isinstance(loop.iter.func, ast.Name)
+                    and loop.iter.func.id == "range" and len(loop.iter.args) == 3):
+                continue
+            v = loop.target.id
+            B = ast.unparse(loop.iter.args[2])
+            for sl in ast.walk(loop):
+                if not (isinstance(sl, ast.Slice) and sl.lower is not None and sl.upper is not None):
+                    continue
+                lo, up = sl.lower, sl.upper
+                if isinstance(lo, ast.BinOp) and isinstance(lo.op, ast.Add) and isinstance(lo.left, ast.Name) and lo.left.id == v and isinstance(lo.right, ast.Constant) and lo.right.value:
+                    if isinstance(up, ast.BinOp) and isinstance(up.op, ast.Add) and isinstance(up.left, ast.Name) and up.left.id == v and ast.unparse(up.right) == B:
+                        ctx.violated(rule, f, "a window shifted by k inside a block loop is shifted at both ends",
+                                     "`%s` starts %s later than the block but ends with it: the last %s element(s) of every block get no partner" % (ast.unparse(sl), lo.right.value, lo.right.value),
+                                     node=sl, engine="KB")
+
+
+NARROW_INTS = {"int8", "int16", "int32", "uint8", "uint16", "uint32"}
+
+
+def h62_positions_in_a_narrow_type(ctx, tk, rule, funcs):
+    """positions / run boundaries kept in the smallest type that can hold them (np.min_scalar_type(n), int32, uint8) wrap around in
+    the arithmetic done on them later - ceil-division by a step, products with values, offsets added - although each position fits"""
+    for f in funcs:
+        for x in ast.walk(f.node):
+            if not (isinstance(x, ast.Call) and isinstance(x.func, ast.Attribute) and x.func.attr == "astype" and x.args):
+                continue
+            d = x.args[0]
+            narrow = (isinstance(d, ast.Attribute) and d.attr in NARROW_INTS) or \
+                (isinstance(d, ast.Call) and isinstance(d.func, ast.Attribute) and d.func.attr == "min_scalar_type") or \
+                (isinstance(d, ast.Constant) and isinstance(d.value, str) and d.value.lstrip("<>=|") in ("i1", "i2", "i4", "u1", "u2", "u4"))
+            if not narrow:
+                continue
+            recv = x.func.value
+            positional = any((isinstance(y, ast.Name) and y.id in ("indices", "events", "positions", "starts", "ends", "offsets", "boundaries")) or
+                             (isinstance(y, ast.Attribute) and y.attr in ("_events", "_indices", "starts", "ends", "_starts", "_ends")) or
+                             (isinstance(y, ast.Call) and isinstance(y.func, ast.Attribute) and y.func.attr in ("flatnonzero", "cumsum", "arange")) for y in ast.walk(recv))
+            if positional:
+                ctx.violated(rule, f, "positions and run boundaries are kept in the platform integer",
+                             "`%s` stores positions in a narrow integer type: later arithmetic on them ((p + step - 1) // step, length * value, p + offset) is done in that type and wraps" % ast.unparse(x)[:100],
+                             node=x, engine="KB")
+
+
+def h63_sorted_order_undone_with_the_same_permutation(ctx, tk, rule, funcs):
+    """order = np.argsort(keys); res = f(x[order]); res[order] does NOT restore the original order (that needs the inverse
+    permutation: np.argsort(order), or out[order] = res).  The two agree only for permutations that are their own inverse"""
+    for f in funcs:
+        orders = {}
+        for st in ast.walk(f.node):
+            if isinstance(st, ast.Assign) and len(st.targets) == 1 and isinstance(st.targets[0], ast.Name) and isinstance(st.value, ast.Call) \
+                    and isinstance(st.value.func, ast.Attribute) and st.value.func.attr in ("argsort", "lexsort"):
+                orders[st.targets[0].id] = st.lineno
+        for o, ln in orders.items():
+            def by_o(e):
+                return isinstance(e, ast.Subscript) and any(isinstance(y, ast.Name) and y.id == o for y in ast.walk(e.slice))
+            tainted = {}          # name -> line of the statement that made it "computed in sorted order"
+            assigns = sorted((st for st in ast.walk(f.node) if isinstance(st, ast.Assign) and st.lineno > ln), key=lambda st: st.lineno)
+            for st in assigns:
+                uses_sorted = any(by_o(y) for y in ast.walk(st.value)) or any(isinstance(y, ast.Name) and y.id in tainted for y in ast.walk(st.value))
+                if uses_sorted and not by_o(st.value):
+                    for tg in st.targets:
+                        for y in ast.walk(tg):
+                            if isinstance(y, ast.Name) and isinstance(y.ctx, ast.Store) and y.id not in tainted:
+                                tainted[y.id] = getattr(st, "end_lineno", st.lineno)
+            for x in ast.walk(f.node):
+                if by_o(x) and isinstance(x.ctx, ast.Load) and isinstance(x.value, ast.Name) and x.value.id in tainted and x.lineno > tainted[x.value.id]:
+                    ctx.violated(rule, f, "a result computed in sorted order is put back with the inverse permutation",
+                                 "`%s`: `%s` was computed from data taken in the order `%s`; indexing it with `%s` again applies the permutation twice instead of undoing it "
+                                 "(right only for self-inverse permutations such as reversals and swaps)" % (ast.unparse(x), x.value.id, o, o), node=x, engine="KB")
+                    break
+
+
 def generic(ctx, tk, rule, funcs, skip=()):
     """all deviance-form hazard rules over a property's function scope"""
     fs = [f for f in funcs if f.qual not in skip]
@@ -1790,6 +2027,14 @@ def generic(ctx, tk, rule, funcs, skip=()):
     h53_narrowed_before_clamped(ctx, tk, rule + "/H53", fs)
     h54_binary_search_in_caller_data(ctx, tk, rule + "/H54", fs)
     h55_scalar_test_misses_numpy_bool(ctx, tk, rule + "/H55", fs)
+    h56_unpackbits_without_count(ctx, tk, rule + "/H56", fs)
+    h57_zero_test_is_not_a_sign_test(ctx, tk, rule + "/H57", fs)
+    h58_nan_marker_promotes_integers(ctx, tk, rule + "/H58", fs)
+    h59_data_stacked_with_positions(ctx, tk, rule + "/H59", fs)
+    h60_bincount_without_minlength(ctx, tk, rule + "/H60", fs)
+    h61_shifted_window_in_chunk_loop(ctx, tk, rule + "/H61", fs)
+    h62_positions_in_a_narrow_type(ctx, tk, rule + "/H62", fs)
+    h63_sorted_order_undone_with_the_same_permutation(ctx, tk, rule + "/H63", fs)
     from . import wellformed as _W
     _W.report_constant_truth(ctx, tk, rule, fs)
     # H19 (raw ufunc identity stored) depends on which ufunc the caller chose: it is applied by C05 only, where the
